@@ -335,6 +335,38 @@ func scenarios() []*sched.Scenario {
 		w.d.Start()
 		w.shutdownAndWait()
 	})
+	// shutdown before the daemon was ever started: nothing may be started afterwards, neither by Start nor by Run
+	for _, how := range []string{"start", "run"} {
+		how := how
+		add("shutdown-before-start-then-"+how, false, func(w *world) {
+			_ = w.add(wspec{name: "a", order: 2, lateYields: 1})
+			_ = w.add(wspec{name: "b", order: 1})
+			w.shutdownAndWait()
+			if how == "start" {
+				w.d.Start()
+			} else {
+				w.d.Run()
+				vrt.Observe("run.ret")
+			}
+			vrt.Quiesce()
+			if w.started["a"] || w.started["b"] {
+				vrt.Fail("late|worker-started-after-shutdown", "a worker registered before the shutdown was started by %s after ShutdownAndWait had returned", how)
+			}
+			if w.d.IsRunning() {
+				vrt.Fail("late|running-after-shutdown", "IsRunning reports true after shutdown followed by %s", how)
+			}
+			if err := w.add(wspec{name: "z", order: 1}); !errors.Is(err, daemon.ErrDaemonAlreadyStopped) {
+				vrt.Fail("register|accepted-after-shutdown", "BackgroundWorker after shutdown returned %v", err)
+			}
+		})
+	}
+	add("start-vs-shutdown", false, func(w *world) {
+		_ = w.add(wspec{name: "a", order: 2, lateYields: 1})
+		_ = w.add(wspec{name: "b", order: 1})
+		r := vrt.Spawn(func() { w.d.Start() })
+		w.shutdownAndWait()
+		r.Join()
+	})
 	add("finish-and-reregister-vs-shutdown", true, func(w *world) {
 		_ = w.add(wspec{name: "a", order: 1, early: true})
 		_ = w.add(wspec{name: "b", order: 2})
